@@ -1074,12 +1074,12 @@ async fn run_inner(cfg: &Cfg, out: &mut Outcome) {
 fn far_instant(base: Instant) -> Instant {
     // the largest Instant reachable by repeated doubling
     let mut cur = base;
-    let mut stepd = Duration::from_secs(1 << 40);
-    while stepd > Duration::from_secs(1) {
-        match cur.checked_add(stepd) {
-            Some(n) => cur = n,
-            None => stepd /= 2,
+    let mut stepd = Duration::from_secs(1 << 62);
+    while stepd >= Duration::from_secs(1) {
+        if let Some(n) = cur.checked_add(stepd) {
+            cur = n;
         }
+        stepd /= 2;
     }
     cur
 }
